@@ -176,4 +176,19 @@ def roView (d : Xml) : Except PyExc RoView :=
              duration := sumDurations vs, completed := (d.find "mosromgrmeta").isSome,
              script := vs.flatMap (·.script), body := vs.flatMap (·.body), stories := vs }
 
+/-! ### Script and body of the running order (no timing is evaluated: fix "script/body") -/
+
+/-- `RunningOrder.script` (mostypes.py l.290-301): the scripts of the story elements, concatenated.  The
+    stories are wrapped one by one (`Story(story_tag)`), so nothing of their timing metadata is read. -/
+def roScript (d : Xml) : Except PyExc (List String) :=
+  match d.find "roCreate" with
+  | none => .error .AttributeError                 -- `self.base_tag.findall` on `None`
+  | some rc => .ok ((rc.findall "story").flatMap storyScript)
+
+/-- `RunningOrder.body` (l.303-316) -/
+def roBody (d : Xml) : Except PyExc (List BodyEl) :=
+  match d.find "roCreate" with
+  | none => .error .AttributeError
+  | some rc => .ok ((rc.findall "story").flatMap storyBody)
+
 end Mrm
